@@ -191,6 +191,13 @@ def step(x):
     return 1 if x > 1 else x / 2      # integer for large entries, float otherwise
 
 
+def _objs():
+    import sympy
+    obj = np.array([1, 2j, 3, 4 - 1j, 5j, 6], dtype=object)
+    sym = np.array([sympy.Integer(1), 2 * sympy.I, sympy.Integer(3), 4 - sympy.I, 5 * sympy.I, sympy.Integer(6)], dtype=object)
+    return dict(OBJ=obj, SYM=sym)
+
+
 def tensor_sig():
     return [("tbox", "a", (2,), (3,)), ("tbox", "b", (3,), (2, 2)), ("tbox", "c", (), (2,)),
             ("tbox", "d", (2, 3), ()), ("tbox", "s", (), ()), ("tbox", "ad", (3,), (2,), True),
@@ -204,7 +211,15 @@ def tensor_sig():
             # functions whose return type depends on the entry, on data whose first entry takes the odd branch
             ("e", "Box('r', Dim(2), Dim(3), [-1.5, 0.5, 2.5, -0.25, 1.75, 3.5]).bubble(func=relu)"),
             ("e", "Box('t', Dim(2), Dim(2), [3, 0.5, 0.25, 1.5]).bubble(func=step)"),
-            ("e", "Box('n', Dim(2), Dim(2), [0, 2, 0.5, 0]).bubble()")], \
+            ("e", "Box('n', Dim(2), Dim(2), [0, 2, 0.5, 0]).bubble()"),
+            # bubbles whose inside is a composite with idle wires or a dagger (the evaluated array
+            # is then a transposed view: index order and memory order differ)
+            ("e", "(Box('w', Dim(2), Dim(3), [1, 2, 3, 4, 5, 6]) @ Id(Dim(2))).bubble(func=poly)"),
+            ("e", "(Id(Dim(3)) @ Box('w', Dim(2), Dim(2), [1, 2, 3, 4]) >> Box('v', Dim(3), Dim(2), [1, 2, 3, 4, 5, 6]) @ Id(Dim(2))).bubble(func=poly)"),
+            ("e", "Box('w', Dim(3), Dim(2), [1, 2j, 3, 4, 5, 6]).dagger().bubble(func=poly)"),
+            # entries stored as Python objects (dtype=object): complex numbers and exact sympy numbers
+            ("e", "Box('o', Dim(2), Dim(3), OBJ)"), ("e", "Box('o', Dim(2), Dim(3), OBJ).dagger()"),
+            ("e", "Box('y', Dim(3), Dim(2), SYM)"), ("e", "Box('y', Dim(3), Dim(2), SYM).dagger()")], \
         [(), (2,), (3,), (2, 3), (2, 2)]
 
 
@@ -230,16 +245,25 @@ def ref_tensor_matrix(d):
             return ref.cup_matrix(dc[0]).T
         if isinstance(b, monoidal.Swap):
             return ref.swap_matrix(dd[0], dd[1])
-        data = np.array(b.data, dtype=complex).flatten()     # the data the box was given
+        data = np.array([complex(v) for v in np.asarray(b.data, dtype=object).flatten()])   # the data the box was given
         if b.is_dagger:   # a daggered box keeps the data of the box it is the dagger of
             return data.reshape(ref.prod(dc), ref.prod(dd)).conj().T
         return data.reshape(ref.prod(dd), ref.prod(dc))
     return ref.ref_eval(d, lambda a: a, mat_of)
 
 
+def num(a):
+    """Array of a Tensor as complex numbers (entries may be stored as Python or sympy objects)."""
+    a = np.asarray(a)
+    if a.dtype == object:
+        # sympy evaluates products of exact numbers and floats with its own rounding: 1e-19 residues
+        return np.round(np.array([complex(v) for v in a.flatten()], dtype=complex).reshape(a.shape), 9)
+    return a
+
+
 def tensor_build(recipe):
     k = build.kit("tensor")
-    k.ns.update(poly=poly, relu=relu, step=step)
+    k.ns.update(poly=poly, relu=relu, step=step, **_objs())
     return build.build(recipe)
 
 
@@ -260,14 +284,14 @@ def check_eval(params):
     if tuple(o.name for o in got.dom.objects) != wd or tuple(o.name for o in got.cod.objects) != wc:
         bad("domcod", "eval : %s -> %s" % (got.dom, got.cod))
         return out
-    arr = np.asarray(got.array)
+    arr = num(got.array)
     if arr.size != want.size or not np.array_equal(arr.reshape(want.shape), want):
         bad("value", "eval().array differs from the layer-by-layer composite")
         return out
     # same tensor as its image under the identity-on-arrays functor
     from discopy import tensor
     F = tensor.Functor(ob=lambda x: x, ar=lambda f: f.array)
-    v = np.asarray(F(d).array)
+    v = num(F(d).array)
     if v.shape != arr.shape or not np.array_equal(v, arr):
         bad("identity-functor", "eval() differs from Functor(ob=id, ar=array)(d)")
     if "recipe2" in params:
@@ -275,7 +299,7 @@ def check_eval(params):
         S = d + e
         sv = S.eval()
         want2 = want + ref_tensor_matrix(e)
-        if not np.array_equal(np.asarray(sv.array).reshape(want2.shape), want2):
+        if not np.array_equal(num(sv.array).reshape(want2.shape), want2):
             bad("sum", "(d + e).eval() is not the sum of the evaluations")
     return out
 
@@ -314,7 +338,7 @@ def run(ctx):
     interps = interpretations(ctx.quick)
     tsig, tdoms = tensor_sig()
     k = build.kit("tensor")
-    k.ns.update(poly=poly, relu=relu, step=step)
+    k.ns.update(poly=poly, relu=relu, step=step, **_objs())
     tsrc = list(build.expr_universe("tensor", tsig, tdoms, depth, 3))
     ctx.count("states", len(src) + len(tsrc))
     ctx.note("sizes", "%d rigid source diagrams x %d interpretations; %d tensor diagrams"
